@@ -20,9 +20,41 @@ func (th *Thread) tokAttr(name string, s Sort, tk *Token) *Term {
 	return mkUF(name, s, tk.ns, tk.v)
 }
 
-func (th *Thread) tokLen(tk *Token) *Term  { return th.tokAttr("tk_len", 64, tk) }
-func (th *Thread) tokKind(tk *Token) *Term { return th.tokAttr("tk_kind", 8, tk) }
+// Engine-built tokens (known kind / literal text) have constant attributes and
+// need no solver facts; only free and integer tokens use the uninterpreted
+// attribute functions.
+func (th *Thread) tokLen(tk *Token) *Term {
+	if tk.lit != "" {
+		return mkBV(64, uint64(len(tk.lit)))
+	}
+	if tk.engine {
+		// unknown length in [2, 2^30+1]: no assertion needed
+		return mkBin("bvadd", mkBin("bvand", th.tokAttr("tk_len", 64, tk), mkBV(64, 1<<30-1)), mkBV(64, 2))
+	}
+	return th.tokAttr("tk_len", 64, tk)
+}
+
+func (th *Thread) tokKind(tk *Token) *Term {
+	if tk.kind >= 0 {
+		return mkBV(8, uint64(tk.kind))
+	}
+	return th.tokAttr("tk_kind", 8, tk)
+}
+
 func (th *Thread) tokByte(tk *Token, i int) *Term {
+	if tk.lit != "" && i < len(tk.lit) {
+		return mkBV(8, uint64(tk.lit[i]))
+	}
+	if tk.engine && i == 0 {
+		switch tk.kind {
+		case kString:
+			return mkBV(8, '"')
+		case kArray:
+			return mkBV(8, '[')
+		case kObject:
+			return mkBV(8, '{')
+		}
+	}
 	return th.tokAttr(fmt.Sprintf("tk_b%d", i), 8, tk)
 }
 
@@ -72,9 +104,12 @@ func (th *Thread) newFreeToken(tag string) *Token {
 
 func (th *Thread) newEngineToken(kind int) *Token {
 	th.st.tokSeq++
-	tk := &Token{ns: mkBV(64, nsObj), v: mkBV(64, uint64(th.st.tokSeq)), kind: kind}
-	th.tokWF(tk)
-	th.st.solver.Assert(mkEq(th.tokKind(tk), mkBV(8, uint64(kind))))
+	tk := &Token{ns: mkBV(64, nsObj), v: mkBV(64, uint64(th.st.tokSeq)), kind: kind, engine: true}
+	if kind == kNumber {
+		// a number of unknown text: first byte is a digit or '-'
+		b0 := th.tokAttr("tk_b0", 8, tk)
+		th.st.solver.Assert(mkOr(mkEq(b0, mkBV(8, '-')), mkAnd(mkCmp("bvuge", b0, mkBV(8, '0')), mkCmp("bvule", b0, mkBV(8, '9')))))
+	}
 	return tk
 }
 
@@ -154,6 +189,16 @@ func (th *Thread) tokEqBytes(tk *Token, lit []Value) *Term {
 	if n == 0 {
 		return tFalse
 	}
+	if tk.lit != "" {
+		if len(tk.lit) != n {
+			return tFalse
+		}
+		r := tTrue
+		for i := 0; i < n; i++ {
+			r = mkAnd(r, mkEq(mkBV(8, uint64(tk.lit[i])), lit[i].(*Term)))
+		}
+		return r
+	}
 	r := mkEq(th.tokLen(tk), mkBV(64, uint64(n)))
 	for i := 0; i < n && i < 4; i++ {
 		r = mkAnd(r, mkEq(th.tokByte(tk, i), lit[i].(*Term)))
@@ -172,10 +217,15 @@ func (th *Thread) tokEqBytes(tk *Token, lit []Value) *Term {
 // plain bytes or the first four bytes of the first token).
 func (th *Thread) ropeIndex(e []Value, idx *Term) Value {
 	i := th.concreteIndex(idx, "rope index")
-	// bounds check against the symbolic length
-	ln := th.lenOf(e)
-	if th.st.branch(mkCmp("bvuge", mkBV(64, uint64(i)), ln), "rope-index-range") {
+	if i < 0 {
 		th.runtimePanic("index out of range", "index out of range [%d]", i)
+	}
+	// bounds check against the symbolic length (every element is at least one byte)
+	if i >= len(e) {
+		ln := th.lenOf(e)
+		if th.st.branch(mkCmp("bvuge", mkBV(64, uint64(i)), ln), "rope-index-range") {
+			th.runtimePanic("index out of range", "index out of range [%d]", i)
+		}
 	}
 	p := 0
 	for _, x := range e {
@@ -403,9 +453,7 @@ func (p *ropeParser) parseStringLit() *StrVal {
 // stringToken returns the JSON string token whose decoded content is s.
 func (th *Thread) stringToken(s *StrVal) *Token {
 	th.st.tokSeq++
-	tk := &Token{ns: mkBV(64, nsStr), v: mkBV(64, uint64(th.st.tokSeq)), kind: kString, str: s}
-	th.tokWF(tk)
-	th.st.solver.Assert(mkEq(th.tokKind(tk), mkBV(8, kString)))
+	tk := &Token{ns: mkBV(64, nsStr), v: mkBV(64, uint64(th.st.tokSeq)), kind: kString, str: s, engine: true}
 	return tk
 }
 
@@ -428,14 +476,7 @@ func (th *Thread) literalToken(lit string, perr *bool) *Token {
 		*perr = true
 		return nil
 	}
-	tk := &Token{ns: mkBV(64, nsLit), v: mkBV(64, th.st.intern(lit)), kind: kind}
-	th.tokWF(tk)
-	th.st.solver.Assert(mkEq(th.tokKind(tk), mkBV(8, uint64(kind))))
-	th.st.solver.Assert(mkEq(th.tokLen(tk), mkBV(64, uint64(len(lit)))))
-	for i := 0; i < len(lit) && i < 4; i++ {
-		th.st.solver.Assert(mkEq(th.tokByte(tk, i), mkBV(8, uint64(lit[i]))))
-	}
-	tk.lit = lit
+	tk := &Token{ns: mkBV(64, nsLit), v: mkBV(64, th.st.intern(lit)), kind: kind, lit: lit, engine: true}
 	return tk
 }
 
